@@ -84,11 +84,13 @@ class BBUnitaryChecker(ast.NodeVisitor):
             self.visit(bb.branch_pred)
 
     def _check_classical_args(self, args: list[ast.expr]) -> bool:
+        # Visit every argument (calls may be nested in any of them) before deciding
+        classic = True
         for arg in args:
             self.visit(arg)
             if contain_qubit_ty(get_type(arg)):
-                return False
-        return True
+                classic = False
+        return classic
 
     def _check_call(self, node: AnyCall, ty: FunctionType) -> None:
         classic = self._check_classical_args(node.args)
